@@ -1516,8 +1516,31 @@ func (c *Ctx) c17Isolated() {
 			}
 			for _, a := range call.Call.Args {
 				al, ok := a.(*ssa.Alloc)
+				ctxFn, before := fn, ssa.Instruction(in)
 				if !ok {
-					continue
+					// the handler's event captured by the function literal that talks to Lua
+					// (h.withInbucket(name, func(…) { … wrapInboundMessage(ls, &msg) … }))
+					fv, isFV := a.(*ssa.FreeVar)
+					if !isFV || fn.Parent() == nil {
+						continue
+					}
+					idx := -1
+					for i, f0 := range fn.FreeVars {
+						if f0 == fv {
+							idx = i
+						}
+					}
+					eng.EachInstr(fn.Parent(), func(pi ssa.Instruction) {
+						if mc, isMC := pi.(*ssa.MakeClosure); isMC && mc.Fn == ssa.Value(fn) && idx >= 0 && idx < len(mc.Bindings) {
+							if pal, isAl := mc.Bindings[idx].(*ssa.Alloc); isAl {
+								al, ok = pal, true
+								ctxFn, before = fn.Parent(), mc
+							}
+						}
+					})
+					if !ok {
+						continue
+					}
 				}
 				// the spilled by-value parameter of the handler
 				isParam := false
@@ -1533,7 +1556,7 @@ func (c *Ctx) c17Isolated() {
 					continue
 				}
 				n++
-				got := refreshed(fn, al, in, 0)
+				got := refreshed(ctxFn, al, before, 0)
 				var missing []string
 				for i := 0; i < st.NumFields(); i++ {
 					switch st.Field(i).Type().Underlying().(type) {
